@@ -135,6 +135,8 @@ def run(spec):
         cwd = _scratch()
         ev.active = False
         _prepare(sp, cwd)
+        if spec.get("last_run_events") and i == len(specs) - 1:
+            ev.files = []            # file events of the last run only (the earlier runs wrote into their own directories)
         ev.active = True
         res = run_one(sp, cwd, ev)
         last = sp
